@@ -11,6 +11,7 @@ import Qentem.Proofs.StrToNumExpPath
 import Qentem.Proofs.StrToNumNegIter
 import Qentem.Proofs.StrToNumPrefix
 import Qentem.Proofs.StrToNumFrac
+import Qentem.Proofs.StrToNumNegAll
 /-! C09 — text to number: integers exact, reals within one ulp, out-of-range rejected. -/
 namespace Qentem.Props.C09
 open Qentem.StrToNum Qentem.Round Qentem.Generated.StrToNum
@@ -750,5 +751,30 @@ theorem real_within_one_ulp_frac_exp (c : List Nat) (o e : Nat) (sign : List Nat
 example : (strToNum [49,46,50,53,101,51] 0 6).map (fun r => (r.kind, r.offset, ulpDist (r.bits % 2 ^ 63) (nearestMag (125 * 10 ^ 1) 1))) = some (.real, 6, 0) := by decide
 example : (strToNum [54,46,48,50,101,45,53] 0 7).map (fun r => (r.kind, r.offset, ulpDist (r.bits % 2 ^ 63) (nearestMag 602 (10 ^ 7)))) = some (.real, 7, 0) := by decide
 example : (strToNum [45,57,46,57,57,101,45,51,51,48] 0 10).map (·.kind) = some .notANumber := by decide
+
+/-! ### Correct rounding on the negative-exponent path, every mantissa -/
+
+/-- **`negexp_exact_every_mantissa`**: for every mantissa `1 ≤ num < 2^64` and decimal exponent `-x`, `x < 344`, whose
+exact value `num/10^x` stays 1/32 ulp away from the rounding boundaries (`MarginPair` on the pair the reference
+rounds), `powerOfNegativeTen` returns the correctly rounded magnitude — except for the three numerals of
+`negExc` (`1e-273`, `1e-286`, `1e-292`).  Analytic error bound for mantissas whose big integer is wide enough
+(`thr x ≤ 618`, monotonicity in the mantissa), kernel-evaluated table for the 16 996 pairs below the threshold. -/
+theorem negexp_exact_every_mantissa (num x : Nat) (hn0 : 0 < num) (hn : num < 2 ^ 64) (hx : x < 344)
+    (hexc : ¬ (num = 1 ∧ (x = 273 ∨ x = 286 ∨ x = 292)))
+    (hm : MarginPair (roundPair num (10 ^ x)).1 (roundPair num (10 ^ x)).2) :
+    powerOfNegativeTen num x = some (nearestMag num (10 ^ x)) :=
+  powerOfNegativeTen_exact17 num x hn0 hn hx hexc hm
+
+/-- **`negexp_exceptions_one_ulp_low`**: the exclusion is necessary — on `1e-273`, `1e-286`, `1e-292` the margin holds
+(the values are 0.040, 0.068, 0.039 ulp from the half-way point) and the code returns the pattern one below the
+correctly rounded one (the mantissa is not normalised before the multiply-shift chain, so the big integer has only
+56 bits left after eleven steps).  Within the one-ulp bound of C09; none of the three is a `%.17g` output. -/
+theorem negexp_exceptions_one_ulp_low :
+    (powerOfNegativeTen 1 273 = some 0x07414FA7DDEFE39F ∧ nearestMag 1 (10 ^ 273) = 0x07414FA7DDEFE3A0 ∧
+      marginB (roundPair 1 (10 ^ 273)).1 (roundPair 1 (10 ^ 273)).2 = true) ∧
+    (powerOfNegativeTen 1 286 = some 0x048E74404F3DAADA ∧ nearestMag 1 (10 ^ 286) = 0x048E74404F3DAADB ∧
+      marginB (roundPair 1 (10 ^ 286)).1 (roundPair 1 (10 ^ 286)).2 = true) ∧
+    (powerOfNegativeTen 1 292 = some 0x034FEEF63F97D79B ∧ nearestMag 1 (10 ^ 292) = 0x034FEEF63F97D79C ∧
+      marginB (roundPair 1 (10 ^ 292)).1 (roundPair 1 (10 ^ 292)).2 = true) := by decide +kernel
 
 end Qentem.Props.C09
